@@ -237,6 +237,32 @@ def c01_check(case):
     return None
 
 
+def c01_text_gen(rng):
+    s = gen.gen_penman_string(rng, wf=maybe(rng, 0.8))
+    if maybe(rng, 0.2):
+        s = gen.perturb(rng, s)
+    return {'text': s, 'indent': rng.choice([None, -1, 0, 2, 4]), 'compact': maybe(rng, 0.5)}
+
+
+def c01_text_check(case):
+    """fixed-point clause over accepted input strings"""
+    try:
+        t = penman.parse(case['text'])
+    except Exception:  # noqa: BLE001
+        return None
+    s1 = penman.format(t, indent=case['indent'], compact=case['compact'])
+    try:
+        t1 = penman.parse(s1)
+    except Exception as e:  # noqa: BLE001
+        return f'format(parse(s)) does not parse: {type(e).__name__}: {e} on {s1!r}'
+    if t1.node != t.node or dict(t1.metadata) != dict(t.metadata) or list(t1.metadata) != list(t.metadata):
+        return f'parse(format(parse(s))) != parse(s): {t1.node!r} {dict(t1.metadata)!r} vs {t.node!r} {dict(t.metadata)!r}'
+    s2 = penman.format(t1, indent=case['indent'], compact=case['compact'])
+    if s2 != s1:
+        return f'formatted text is not a fixed point: {s2!r} vs {s1!r}'
+    return None
+
+
 # ======================================================================= C02
 
 def c02_wf_layout(node, model):
@@ -1879,7 +1905,7 @@ def c17_hashseed(cases, seeds=(0, 1, 2, 3)):
 
 
 ORACLES = {
-    'C01': [(c01_gen, c01_check)],
+    'C01': [(c01_gen, c01_check), (c01_text_gen, c01_text_check)],
     'C02': [(c02_gen, c02_check)],
     'C03': [(c03_gen, c03_check)],
     'C04': [(c04_gen, c04_check)],
@@ -1997,6 +2023,9 @@ def derive_cases(pid, op):
                 pass
     jn = [(j_node(n), [[k, v] for k, v in md.items()]) for n, md in trees]
     if pid == 'C01':
+        for s_ in texts:
+            for ind in (-1, None, 2):
+                cases.append((c01_text_check, {'text': s_, 'indent': ind, 'compact': False}))
         for n, md in jn:
             for ind in (op.get('indent', -1), None, -1, 0, 3):
                 for c in (op.get('compact', False), True):
